@@ -30,8 +30,13 @@ contract(
     "liquid2.builtin.expressions:_contains",
     props=["C02", "C01"],
     params={"token": Any_, "left": Union(Str, ListOf("any"), DictOf("str", "any"), Int, NoneT),
-            "right": Union(Str, Int, NoneT, ListOf("any"))},      # a list on the right is unhashable
+            "right": Union(Str, Int, NoneT, TrueT, FalseT, ListOf("any"))},      # a list on the right is unhashable
+    inline=["liquid2.builtin.expressions:_to_liquid_string"],
     post=["implies(isinstance(left, str) and isinstance(right, str), result == (right in left))",
+          # the right operand is looked for in its Liquid string form: no string contains nil; true / false are spelled in lower case
+          "implies(isinstance(left, str) and right is None, result == False)",
+          "implies(isinstance(left, str) and right is True, result == ('true' in left))",
+          "implies(isinstance(left, str) and right is False, result == ('false' in left))",
           "implies(isinstance(left, dict) and isinstance(right, list), result == False)"],
     raises={"LiquidTypeError": "not isinstance(left, (str, list, dict))"},
 )
